@@ -245,7 +245,7 @@ func WalkWithReporter returns (err)
 // callback does not run; the callback is handed one non-nil reader per name, in order.
 // ---------------------------------------------------------------------------------------------
 type utils.ReadersCb(streams) returns (err)
-  requires @all-open forall i int :: {streams[i]} 0 <= i && i < len(streams) ==> streams[i] != nil
+  requires @all-open forall i int :: {streams[i]} 0 <= i && i < len(streams) ==> streams[i] != nil && payload(streams[i]) != 0   // an interface around a nil *os.File is not nil
   modifies *
   modifies ghost(cbLen, cbErr, cbNode, cbStop, cbRet, cbLineNo, cbLine, cbHeader, cbElems, cbNElems, scRd, scPos, privLo, evOf, accKey, accP, accN, accH, bufSink, bufSticky, sinkFailed, sinkPend, prLen, prSink, prArg, prArgs, csvLen, csvW, csvN, csvRow, tnodes, tdepth, tmax, tmapOf, jlen, tvLen, tv, tseg, tvSet, adLen, adName, adVal, adSep, adRoot, lastOpen)
 
@@ -257,7 +257,7 @@ func NewCmdUtils$1 returns (err)
   modifies ghost(cbLen, cbErr, cbNode, cbStop, cbRet, cbLineNo, cbLine, cbHeader, cbElems, cbNElems, scRd, scPos, privLo, evOf, accKey, accP, accN, accH, bufSink, bufSticky, sinkFailed, sinkPend, prLen, prSink, prArg, prArgs, csvLen, csvW, csvN, csvRow, tnodes, tdepth, tmax, tmapOf, jlen, tvLen, tv, tseg, tvSet, adLen, adName, adVal, adSep, adRoot, lastOpen)
   loop 1 {
     invariant @opened len(result) == len(fileNames) && fresh(arr(result)) && fileNames == old(fileNames) && cb == old(cb)
-    invariant @non-nil forall j int :: {result[j]} 0 <= j && j < #i ==> result[j] != nil
+    invariant @non-nil forall j int :: {result[j]} 0 <= j && j < #i ==> result[j] != nil && payload(result[j]) != 0
     // an empty name (--no-database) stands for an empty input: no lines, never fails (C16)
     invariant @empty-name forall j int :: {result[j]} 0 <= j && j < #i && fileNames[j] == "" ==> RdN(payload(result[j])) == 0 && !RdFailed(payload(result[j]))
   }
@@ -284,6 +284,7 @@ func NewCmdUtils$2 returns (err)
   modifies ghost(cbLen, cbErr, cbNode, cbStop, cbRet, cbLineNo, cbLine, cbHeader, cbElems, cbNElems, scRd, scPos, privLo, evOf, accKey, accP, accN, accH, bufSink, bufSticky, sinkFailed, sinkPend, prLen, prSink, prArg, prArgs, csvLen, csvW, csvN, csvRow, tnodes, tdepth, tmax, tmapOf, jlen, tvLen, tv, tseg, tvSet, adLen, adName, adVal, adSep, adRoot, procLen, procTime, procSrc, lastOpen, cfgRd)
   // a failure to load the options (an explicitly named configuration file that does not exist, an unreadable one, a
   // --today that does not parse) is returned, and the command does not run (C16, C06)
+  ghost before call 1 Load { assert @uses-the-configuration-file [C16] #arg2 }
   ghost after call 1 Load { let lerr := #ret }
   ghost before dyncall 1 { assert @only-after-a-successful-load [C16 C06] lerr == nil && #arg0 == o }
   ensures @load-error-returned [C16 C06] lerr != nil ==> err == lerr
